@@ -18,7 +18,11 @@ def run(tier):
     cov["behaviours_replayed"] += b
     cov["replay_steps"] += s
     cov["distinct_nontrivial"] += n
-    cov["boxes"] = "%d behaviours of Boxes.tla (CBox from T/Box<T>/(T,NoContext), CSliceBox of length 0/1/3, typed objects; heavy and zero-sized payloads; into_opaque, into_inner, DerefMut writes, drop in any form)" % b
+    # impl -> spec: long random executions of the same types (three slots, foreign-made and lent boxes included) validated by TLC
+    nfiles, events = (2, 3000) if tier == "quick" else (8, 20000)
+    cov["trace_events_validated"] = cov.get("trace_events_validated", 0) + lib.trace_step(c, rt, ["boxes"], "Trace_Boxes", "Trace_Boxes.cfg", nfiles, events,
+                                                                                           what="execution of CBox/CSliceBox/typed objects rejected by Boxes.tla")
+    cov["boxes"] = "%d behaviours of Boxes.tla (CBox from T/Box<T>/(T,NoContext), CSliceBox of length 0/1/3, typed objects; heavy, zero-sized and plain-data payloads; boxes made by foreign code (owned / lent); into_opaque, into_inner, DerefMut writes, drop in any form)" % b
     c.finish(cov)
 
 
